@@ -335,19 +335,34 @@ mod with_arb {
             }
             _ => {}
         }
+        // `clone_from` on the payload types themselves (the enum's own clone_from is the default
+        // `*self = source.clone()` and would hide a hand-written one further down)
+        fn copy_both_ways<T: Clone + PartialEq + core::fmt::Debug>(a: &T, b: &T) -> W {
+            let mut t = a.clone();
+            t.clone_from(b);
+            if &t != b || format!("{:?}", t) != format!("{:?}", b) {
+                return Err("clone_from(&source) did not produce a copy of the source (something of the old value survived)".to_string());
+            }
+            let mut t2 = b.clone();
+            t2.clone_from(a);
+            if &t2 != a || format!("{:?}", t2) != format!("{:?}", a) {
+                return Err("clone_from(&source) did not produce a copy of the source".to_string());
+            }
+            Ok(())
+        }
         for s in &sibs {
             check_pair("derived sibling", r, s)?;
             check_pair("derived sibling", s, r)?;
-            // clone_from: the target (the richer original) must become an exact copy of the source
-            let mut t = r.clone();
-            t.clone_from(s);
-            if &t != s || format!("{:?}", t) != format!("{:?}", s) {
-                return Err("clone_from(&source) onto a value with more members set did not produce a copy of the source".to_string());
-            }
-            let mut t2 = s.clone();
-            t2.clone_from(r);
-            if &t2 != r || format!("{:?}", t2) != format!("{:?}", r) {
-                return Err("clone_from(&source) onto a value with fewer members set did not produce a copy of the source".to_string());
+            copy_both_ways(r, s)?;
+            match (r, s) {
+                (ctap2::Request::MakeCredential(a), ctap2::Request::MakeCredential(b)) => {
+                    copy_both_ways(a, b)?;
+                    copy_both_ways(&a.rp, &b.rp)?;
+                    copy_both_ways(&a.user, &b.user)?;
+                }
+                (ctap2::Request::GetAssertion(a), ctap2::Request::GetAssertion(b)) => copy_both_ways(a, b)?,
+                (ctap2::Request::CredentialManagement(a), ctap2::Request::CredentialManagement(b)) => copy_both_ways(a, b)?,
+                _ => {}
             }
         }
         Ok(())
